@@ -309,6 +309,28 @@ theorem batch_mismatch (vr : Variant) (k : Nat) (c : Conn V) (d : Proto)
                 · simp only [Obs.done.injEq] at h; exact Or.inl h.symm
                 · simp only [Obs.done.injEq] at h; exact Or.inr h.symm
 
+/-- **malformed_member_refuses_batch.**  A response batch with a malformed member - whatever id
+    that member carries: the id of an outstanding single request, of a member of an outstanding
+    batch, of nothing - is refused as a whole with a protocol error, in every variant: no future
+    moves, no entry leaves the table (in particular the single request whose id the bad member
+    carries stays outstanding and is completed by its own response later). -/
+theorem malformed_member_refuses_batch (vr : Variant) (k : Nat) (c : Conn V) (d : Proto)
+    (ms : List (RawResp V))
+    (hbad : ∃ m ∈ ms, (processResponse vr (c.detect d) m).2.isMalformed = true) :
+    step vr k c (.recvBatch d ms) = (c.settled d, .raised .protocolError) := by
+  rw [step_recvBatch]
+  split
+  · rfl
+  · obtain ⟨m, hm, hmal⟩ := hbad
+    have hne : (ms.map (processResponse vr (c.detect d))).isEmpty = false := by
+      cases ms with
+      | nil => cases hm
+      | cons x xs => rfl
+    have hany : (ms.map (processResponse vr (c.detect d))).any (·.2.isMalformed) = true := by
+      rw [List.any_eq_true]
+      exact ⟨_, List.mem_map.2 ⟨m, hm, rfl⟩, hmal⟩
+    simp [recvResponseBatch, hne, hany]
+
 /-! ## unknown ids, replays -/
 
 /-- **raised_unchanged.**  Whenever receiving a response or response batch raises — whatever the
